@@ -144,6 +144,17 @@ def replay(ctx, st, idx):
         if not all(same(w, g) for w, g in zip(want, got)):
             return ctx.violation(sig + 'values', f'+/- of shapes {s1},{s2} not component-wise broadcast', case)
     elif op == 'sep':
+        # narrow integer dtypes with offsets beyond the square-overflow point: the distance must not wrap around
+        for it, mul in ((np.int16, 100), (np.int32, 20000)):
+            try:
+                pa = PixCoord(mk(s1, 3 * mul, mul, it), mk(s1, -2 * mul, 7 * mul, it))
+                qa = PixCoord(mk(s2, mul, -4 * mul, it), mk(s2, 5 * mul, 0, it))
+                dd = np.asarray(pa.separation(qa), dtype=float)
+                wantm = model_arr(res)
+                if wantm is not None and dd.size and not np.allclose(dd, np.sqrt(wantm[1]) * mul, rtol=1e-6 if it is np.int16 else 1e-9, atol=0):
+                    return ctx.violation(sig + f'values|{it.__name__}', f'separation of {it.__name__} coordinate arrays is not the Euclidean distance', dict(case, dtype=it.__name__))
+            except ValueError:
+                pass
         try:
             d = P(s1).separation(Q(s2))
             got = obs(np.asarray(d) ** 2)
@@ -175,9 +186,21 @@ def replay(ctx, st, idx):
 def wcs_roundtrips(ctx, rnd):
     from regions import PixCoord
     n = 0
+    pool = []
     for scale, rot, par, frame, proj in [(1e-3, (3, 4, 5), 1, 'icrs', 'TAN'), (2e-4, (-12, 5, 13), -1, 'galactic', 'SIN'),
                                          (5e-5, (0, 1, 1), 1, 'fk5', 'CAR'), (1e-2, (20, 21, 29), 1, 'fk4', 'TAN')]:
-        w = wcsutil.make_wcs(scale, rot, par, frame, proj, (rnd.uniform(0, 359), rnd.uniform(-60, 60)), (rnd.uniform(0, 50), rnd.uniform(0, 50)))
+        pool.append((frame, proj, wcsutil.make_wcs(scale, rot, par, frame, proj, (rnd.uniform(0, 359), rnd.uniform(-60, 60)), (rnd.uniform(0, 50), rnd.uniform(0, 50)))))
+    # an invertible WCS with distortion terms: 'wcs' mode must use the core transform in BOTH directions
+    from astropy.wcs import Sip
+    ws = wcsutil.make_wcs(3e-4, (3, 4, 5), 1, 'icrs', 'TAN', (150.0, 20.0), (20.0, 20.0))
+    ws.wcs.ctype = ['RA---TAN-SIP', 'DEC--TAN-SIP']
+    a = np.zeros((3, 3))
+    b = np.zeros((3, 3))
+    a[2, 0], a[0, 2], b[1, 1], b[2, 0] = 2e-4, -1e-4, 1.5e-4, 1e-4
+    ws.sip = Sip(a, b, None, None, [20.0, 20.0])
+    ws.wcs.set()
+    pool.append(('icrs', 'TAN-SIP', ws))
+    for frame, proj, w in pool:
         for shape in ([], [0], [1], [3], [2, 3], [2, 2, 3]):
             for dtype in (np.int64, float):
                 p = PixCoord(mk(shape, 3, 1, dtype), mk(shape, -2, 7, dtype))
@@ -188,8 +211,8 @@ def wcs_roundtrips(ctx, rnd):
                             ctx.case(('wcs', tuple(shape), o1, o2, mode, frame), True)
                             try:
                                 q = PixCoord.from_sky(p.to_sky(w, origin=o1, mode=mode), w, origin=o2, mode=mode)
-                                ok = np.shape(q.x) == tuple(shape) and np.allclose(np.asarray(q.x), np.asarray(p.x) + (o2 - o1), rtol=0, atol=1e-8) \
-                                    and np.allclose(np.asarray(q.y), np.asarray(p.y) + (o2 - o1), rtol=0, atol=1e-8)
+                                ok = np.shape(q.x) == tuple(shape) and np.allclose(np.asarray(q.x), np.asarray(p.x) + (o2 - o1), rtol=0, atol=1e-8 if proj != 'TAN-SIP' else 1e-5) \
+                                    and np.allclose(np.asarray(q.y), np.asarray(p.y) + (o2 - o1), rtol=0, atol=1e-8 if proj != 'TAN-SIP' else 1e-5)
                                 if shape == [] and not q.isscalar:
                                     ok = False
                             except Exception as ex:  # noqa
